@@ -203,16 +203,18 @@ def run(ctx, rep, tier):
         if a is None:
             raise AnalysisError(f"_interpret_parse_tree: no arm for {label}")
         return "\n".join(ast.unparse(s) for s in a)
+    CNT = r"(?:int\(regex_tree\.children\[%d\]\.value\)|self\._repeat_count\(regex_tree\.children\[%d\]\))"
+    cnt1 = lambda src: re.search(CNT % (1, 1), src) is not None
     s = arm_src("regex_exact_repeat")
-    rep.check("int(regex_tree.children[1].value)" in s and re.search(r"RegexSequence\(itertools\.repeat\((\w+), (\w+)\)\)", s) is not None, "C07.e", "RegexMatch._interpret_parse_tree",
+    rep.check(cnt1(s) and re.search(r"RegexSequence\(itertools\.repeat\((\w+), (\w+)\)\)", s) is not None, "C07.e", "RegexMatch._interpret_parse_tree",
               "{n}: n copies", "exact repeat desugaring changed")
     s = arm_src("regex_at_least_repeat")
-    rep.check(re.search(r"RegexSequence\(\[(\w+) for \w+ in range\((\w+)\)\] \+ \[RegexKleene\(\1\)\]\)", s) is not None and "int(regex_tree.children[1].value)" in s, "C07.e",
+    rep.check(re.search(r"RegexSequence\(\[(\w+) for \w+ in range\((\w+)\)\] \+ \[RegexKleene\(\1\)\]\)", s) is not None and cnt1(s), "C07.e",
               "RegexMatch._interpret_parse_tree", "{n,}: n copies then a star", "at-least repeat desugaring changed")
     s = arm_src("regex_range_repeat")
     m = re.search(r"itertools\.chain\(itertools\.repeat\((\w+), (\w+)\), itertools\.repeat\(RegexOptional\(\1\), (\w+) - \2\)\)", s)
-    mins = re.search(r"(\w+) = int\(regex_tree\.children\[1\]\.value\)", s)
-    maxs = re.search(r"(\w+) = int\(regex_tree\.children\[2\]\.value\)", s)
+    mins = re.search(r"(\w+) = " + CNT % (1, 1), s)
+    maxs = re.search(r"(\w+) = " + CNT % (2, 2), s)
     rep.check(bool(m and mins and maxs and m.group(2) == mins.group(1) and m.group(3) == maxs.group(1)), "C07.e", "RegexMatch._interpret_parse_tree",
               "{n,m}: n copies then m-n optionals", "range repeat desugaring changed (count of copies / optionals, or which bound is which)")
     s = arm_src("regex_operation")
@@ -224,6 +226,25 @@ def run(ctx, rep, tier):
     rep.check("RegexSequence(" in s and "regex_tree.children" in s, "C07.e", "RegexMatch._interpret_parse_tree", "sequence over all elements in order", "sequence construction changed")
     rs = ast.unparse(model.func("RegexSequence.__init__"))
     rep.check(model.has("RegexSequence.__init__", "self.sub_matches = list(sub_matches)"), "C07.e", "RegexSequence.__init__", "sequence keeps order", "RegexSequence no longer keeps its elements in order")
+
+    # ------------------------------------------------------------------ C07.i counts and ranges are validated (F-86)
+    rep.rule("C07.i", "repetition counts are non-negative and ranges ordered: the number terminal admits a sign, so every count passes through the refusing converter; {n,m} with m < n and "
+                      "a set range whose end precedes its start are refused")
+    ipt = model.func("RegexMatch._interpret_parse_tree")
+    raw_counts = [n for n in ast.walk(ipt) if isinstance(n, ast.Call) and ast.unparse(n.func) == "int" and "regex_tree.children" in ast.unparse(n)]
+    rc = model.functions.get("RegexMatch._repeat_count")
+    rc_ok = rc is not None and any(isinstance(i, ast.If) and re.fullmatch(r"(\w+) < 0", ast.unparse(i.test)) and isinstance(i.body[-1], ast.Raise) and model.is_subclass(raised_class(i.body[-1]) or "", "NMFUError")
+                                   for i in ast.walk(rc))
+    rep.check(not raw_counts and rc_ok, "C07.i", "RegexMatch._interpret_parse_tree", "counts are converted by _repeat_count, which refuses negative values",
+              f"{len(raw_counts)} repetition count(s) are read with a bare int(): the number terminal admits a sign, `/a{{-1}}/` then matches the empty string and `/a{{-2,1}}/` matches `aaa`",
+              line=(raw_counts[0].lineno if raw_counts else ipt.lineno))
+    s = arm_src("regex_range_repeat")
+    rep.check(bool(mins and maxs) and re.search(r"if %s < %s:\n\s+raise IllegalParseTree" % (maxs.group(1) if maxs else "?", mins.group(1) if mins else "?"), s) is not None, "C07.i",
+              "RegexMatch._interpret_parse_tree", "{n,m}: m < n is refused", "`/a{2,1}/` is accepted and matches `aa`: itertools.repeat with a negative count yields nothing, so the upper bound is ignored")
+    for cls in ("RegexMatch", "BinaryRegexMatch"):
+        src = ast.unparse(model.func(cls + "._visit_all_char_classes"))
+        rep.check(re.search(r"if ord\(end\) < ord\(start\):\n\s+raise IllegalParseTree", src) is not None, "C07.i", cls + "._visit_all_char_classes", "a reversed set range is refused",
+                  "a reversed range inside a set (`[z-ab]`) silently contributes nothing")
 
     # ------------------------------------------------------------------ C07.f atoms and ranges
     rep.rule("C07.f", "set ranges include both end points; raw / escaped / binary atoms denote their byte")
